@@ -981,6 +981,7 @@ func buildGraphFromAST(node *sitter.Node, sourceCode []byte, graph *CodeGraph, c
 		if node.Type == "method_declaration" {
 			// iterate through method method_invocation from graph node
 			for _, invokedNode := range graph.Nodes {
+				verifCountOp()
 				if invokedNode.Type == "method_invocation" {
 					if invokedNode.Name == node.Name {
 						// check argument list count is same
@@ -1110,6 +1111,7 @@ func Initialize(directory string) *CodeGraph {
 		parser.SetLanguage(java.GetLanguage())
 
 		for file := range fileChan {
+			verifBeforeFile(file)
 			fileName := filepath.Base(file)
 			statusChan <- fmt.Sprintf("\033[32mWorker %d ....... Reading and parsing code %s\033[0m", workerID, fileName)
 			sourceCode, err := readFile(file)
@@ -1186,6 +1188,7 @@ func Initialize(directory string) *CodeGraph {
 
 	// Collect results
 	for localGraph := range resultChan {
+		verifOnMerge(localGraph)
 		for _, node := range localGraph.Nodes {
 			codeGraph.AddNode(node)
 		}
